@@ -1113,7 +1113,7 @@ impl<'a> Run<'a> {
       .filter(|(d, id)| *d == doc && existing.contains(id))
       .map(|(_, id)| id)
       .collect();
-    let pick_id = |bias_existing: bool| -> String {
+    let pick_plain = |bias_existing: bool| -> String {
       if bias_existing && !generated_here.is_empty() && ctx::chance(1, 2) {
         generated_here[ctx::choose(generated_here.len())].clone()
       } else if bias_existing && !existing.is_empty() && ctx::chance(3, 4) {
@@ -1121,6 +1121,18 @@ impl<'a> Run<'a> {
       } else {
         format!("{}#{}", any_did(), frag())
       }
+    };
+    // purge / remove take a complete DID URL: one target in ten is the id of a method with a query or path added,
+    // which is the id of NO method of the document
+    let pick_id = |bias_existing: bool| -> String {
+      let id = pick_plain(bias_existing);
+      if ctx::chance(1, 10) {
+        if let Some((did, frag)) = id.split_once('#') {
+          ctx::stat("probe.target_id_with_path_or_query");
+          return format!("{did}{}#{frag}", ["?versionId=1", "/keys"][ctx::choose(2)]);
+        }
+      }
+      id
     };
     let w_storage = if self.prop == "C09" { 10 } else { 4 };
     match ctx::weighted(&[w_storage, w_storage, 4, 3, 4, 2, 2, 1]) {
@@ -1138,7 +1150,7 @@ impl<'a> Run<'a> {
       },
       3 => Op::RemoveMethod { doc, id: pick_id(true) },
       4 => {
-        let q = if ctx::choose(2) == 0 { pick_id(true) } else { frag() };
+        let q = if ctx::choose(2) == 0 { pick_plain(true) } else { frag() };
         Op::Attach {
           doc,
           query: q,
@@ -1146,7 +1158,7 @@ impl<'a> Run<'a> {
         }
       }
       5 => {
-        let q = if ctx::choose(2) == 0 { pick_id(true) } else { frag() };
+        let q = if ctx::choose(2) == 0 { pick_plain(true) } else { frag() };
         Op::Detach {
           doc,
           query: q,
@@ -1261,6 +1273,11 @@ impl Engine for StorEngine {
     ks::install_hooks(keygen.clone(), yn, yd);
     ks::set_hook_yields(false);
     let ctl = Rc::new(FaultCtl::default());
+    // one key store in six does not set `kid` on generated JWKs
+    if ctx::chance(1, 6) {
+      ctl.strip_kid.set(true);
+      ctx::stat("probe.key_store_without_kid");
+    }
     ctl.yield_rate.set((yn, yd));
     let storage: Stor = Storage::new(
       FaultyJwk {
@@ -1454,6 +1471,73 @@ impl Engine for StorEngine {
     let total_faults = run.ctl.faults_fired.get();
     ctx::stat_n("faults_fired_total", total_faults);
     ks::uninstall_hooks();
+    if prop == "C04" && !ctx::has_violation() && ctx::choose(8) == 0 {
+      url_component_ids();
+    }
+  }
+}
+
+/// Method and service ids are DID URLs: besides the fragment they may carry a path or a query
+/// (`did:..?versionId=2#k1`, `did:../registry#s1`). A document that accepted such entries must still round-trip
+/// through its JSON form, resolve them by their full id and give them back on removal. (Kept apart from the main
+/// history: queries match on DID and fragment only, so such ids are look-alikes of plain ones by design.)
+fn url_component_ids() {
+  let did = "did:sim:urlids";
+  let mut doc = CoreDocument::builder(Default::default()).id(CoreDID::parse(did).unwrap()).build().expect("empty doc");
+  let empty = doc.clone();
+  let part = ["?versionId=2", "/keys", "/a/b?x=1"][ctx::choose(3)];
+  let mid = format!("{did}{part}#k1");
+  let mut m = harness_method(did, "k1", 9);
+  let Ok(url) = DIDUrl::parse(&mid) else { return };
+  if m.set_id(url.clone()).is_err() {
+    return;
+  }
+  let scope: Scope = if ctx::choose(2) == 0 { None } else { Some(ctx::choose(5)) };
+  if doc.insert_method(m, to_scope(scope)).is_err() {
+    ctx::stat("observation.url_component_id_refused");
+    return;
+  }
+  ctx::stat("probe.url_component_ids");
+  ctx::sched("urlids", ctx::choose(1) as u64);
+  let check_rt = |d: &CoreDocument, what: &str| {
+    let r = d
+      .to_json()
+      .map_err(|e| format!("to_json failed: {e}"))
+      .and_then(|j| CoreDocument::from_json(&j).map_err(|e| format!("own JSON rejected: {e}")))
+      .and_then(|back| if &back == d { Ok(()) } else { Err("JSON round trip yields a different document".to_owned()) });
+    if let Err(e) = r {
+      ctx::violation("C04", "C04.round_trip", format!("url-component-ids/{what}"), format!("document with {what} id {mid}: {e}"));
+    }
+  };
+  check_rt(&doc, "method");
+  match doc.resolve_method(mid.as_str(), None) {
+    Some(found) if found.id().to_string() == mid => {}
+    other => ctx::violation(
+      "C04",
+      "C04.resolve_method_matches_model",
+      "url-component-ids/full-id-query",
+      format!("resolve_method({mid}) returned {:?}", other.map(|m| m.id().to_string())),
+    ),
+  }
+  let sid = format!("{did}{}#s1", ["/registry", "?service=files"][ctx::choose(2)]);
+  if let Ok(svc) = Service::from_json_value(serde_json::json!({"id": sid, "type": "SimService", "serviceEndpoint": "https://sim.example/s1"})) {
+    if doc.insert_service(svc).is_ok() {
+      check_rt(&doc, "service");
+      let _ = doc.remove_service(&DIDUrl::parse(&sid).unwrap());
+    }
+  }
+  match doc.remove_method(&url) {
+    Some(removed) if removed.id().to_string() == mid => {
+      if doc != empty {
+        ctx::violation("C04", "C04.transition_matches_model", "url-component-ids/remove-leaves-residue", "document after insert + remove differs from the empty document");
+      }
+    }
+    other => ctx::violation(
+      "C04",
+      "C04.transition_matches_model",
+      "url-component-ids/remove-by-full-id",
+      format!("remove_method({mid}) returned {:?}", other.map(|m| m.id().to_string())),
+    ),
   }
 }
 
